@@ -40,6 +40,13 @@ type AnchorRec struct {
 type anchorFile struct {
 	Funcs map[string]AnchorRec   `json:"funcs"`
 	Types map[string][][2]string `json:"types"` // struct type -> ordered (field name, field type)
+	Named map[string]NamedRec    `json:"named"` // every named type of the repo
+}
+
+// NamedRec is the fingerprint of a named type.
+type NamedRec struct {
+	Under   string   `json:"under"` // kind and, for non-structs, the underlying type
+	Methods []string `json:"methods,omitempty"`
 }
 
 // fieldAlias maps (type, current field name) to the recorded field name.
@@ -130,9 +137,49 @@ func (p *Prog) structFields() map[string][][2]string {
 	return out
 }
 
+// namedTypes lists every named type declared in the repo packages.
+func (p *Prog) namedTypes() map[string]NamedRec {
+	out := map[string]NamedRec{}
+	q := func(pk *types.Package) string { return pk.Path() }
+	for _, pk := range p.Pkgs {
+		if pk.Types == nil {
+			continue
+		}
+		sc := pk.Types.Scope()
+		for _, n := range sc.Names() {
+			tn, ok := sc.Lookup(n).(*types.TypeName)
+			if !ok || tn.IsAlias() {
+				continue
+			}
+			named, ok := tn.Type().(*types.Named)
+			if !ok {
+				continue
+			}
+			rec := NamedRec{}
+			switch u := named.Underlying().(type) {
+			case *types.Struct:
+				rec.Under = "struct"
+			case *types.Interface:
+				rec.Under = "interface"
+				for i := 0; i < u.NumMethods(); i++ {
+					rec.Methods = append(rec.Methods, u.Method(i).Name())
+				}
+			default:
+				rec.Under = CleanName(types.TypeString(u, q))
+			}
+			for i := 0; i < named.NumMethods(); i++ {
+				rec.Methods = append(rec.Methods, named.Method(i).Name())
+			}
+			sort.Strings(rec.Methods)
+			out[NamedTypeString(named)] = rec
+		}
+	}
+	return out
+}
+
 // DumpAnchors writes the fingerprint table of the program.
 func (p *Prog) DumpAnchors(path string) error {
-	af := anchorFile{Funcs: map[string]AnchorRec{}, Types: p.structFields()}
+	af := anchorFile{Funcs: map[string]AnchorRec{}, Types: p.structFields(), Named: p.namedTypes()}
 	for _, fn := range p.Funcs {
 		if fn.Parent() != nil || fn.Synthetic != "" {
 			continue
@@ -155,6 +202,81 @@ func (p *Prog) applyAnchorTable(path string) {
 	var af anchorFile
 	if json.Unmarshal(data, &af) != nil || af.Funcs == nil {
 		return
+	}
+	// renamed types: a recorded named type that is gone and a type new to the record, in the same package, of the
+	// same kind, with (nearly) the same fields or the same underlying type and methods
+	if af.Named != nil {
+		now := p.namedTypes()
+		nowFields := p.structFields()
+		for oldName, rec := range af.Named {
+			if _, ok := now[oldName]; ok {
+				continue
+			}
+			pkgOf := func(n string) string { return n[:strings.LastIndex(n, ".")] }
+			best, bestScore, second := "", 0.0, 0.0
+			for newName, nr := range now {
+				if _, known := af.Named[newName]; known || pkgOf(newName) != pkgOf(oldName) {
+					continue
+				}
+				kindOK := nr.Under == rec.Under || (rec.Under != "struct" && rec.Under != "interface" && strings.ReplaceAll(nr.Under, newName, oldName) == rec.Under)
+				if !kindOK {
+					continue
+				}
+				score := 0.0
+				if rec.Under == "struct" {
+					rf, nf := af.Types[oldName], nowFields[newName]
+					same := 0
+					for _, a := range rf {
+						for _, b := range nf {
+							if a[0] == b[0] && strings.ReplaceAll(b[1], newName, oldName) == a[1] {
+								same++
+							}
+						}
+					}
+					if n := max(len(rf), len(nf)); n > 0 {
+						score = float64(same) / float64(n)
+					} else {
+						score = 0.5
+					}
+				} else {
+					score = 0.5
+				}
+				inter := 0
+				have := map[string]bool{}
+				for _, m := range nr.Methods {
+					have[m] = true
+				}
+				for _, m := range rec.Methods {
+					if have[m] {
+						inter++
+					}
+				}
+				if n := max(len(rec.Methods), len(nr.Methods)); n > 0 {
+					score += float64(inter) / float64(n)
+				} else {
+					score += 0.5
+				}
+				if score > bestScore {
+					second = bestScore
+					best, bestScore = newName, score
+				} else if score > second {
+					second = score
+				}
+			}
+			if best != "" && bestScore >= 1.0 && second < bestScore {
+				typeAlias[best] = oldName
+				p.Renames = append(p.Renames, fmt.Sprintf("type %s is now %s", oldName, best))
+			}
+		}
+		if len(typeAlias) > 0 {
+			// names that contain the renamed types were computed before the aliases were known
+			byName := map[string]*ssa.Function{}
+			for _, fn := range p.byName {
+				byName[FuncName(fn)] = fn
+			}
+			p.byName = byName
+			sort.Slice(p.Funcs, func(i, j int) bool { return FuncName(p.Funcs[i]) < FuncName(p.Funcs[j]) })
+		}
 	}
 	table := af.Funcs
 	recordedParams = map[string][]string{}
@@ -322,4 +444,15 @@ func ParamName(prm *ssa.Parameter) string {
 		}
 	}
 	return prm.Name()
+}
+
+// CurrentTypeName gives the name a recorded named type has in the program under analysis
+// ("fracmanager.proxyFrac" -> "fracmanager.fractionProxy" after a rename, else the name itself).
+func CurrentTypeName(recorded string) string {
+	for now, old := range typeAlias {
+		if old == recorded {
+			return now
+		}
+	}
+	return recorded
 }
